@@ -84,6 +84,12 @@ class C01(Check):
         def leaf():
             if rng.random() < 0.08:
                 return [0]  # the length set of an empty composite: repetitions of it stay {0}
+            if rng.random() < 0.12:
+                # an arithmetic progression: all residues in one coset of the stride (sumsets of such sets keep their size while
+                # they move from coset to coset)
+                st = rng.choice([8, 16, 32, 24, 6])
+                a0 = rng.choice([0, 8, 3, 16])
+                return [a0 + st * i for i in range(rng.randint(3, 5))]
             n = rng.randint(1, 4)
             if huge and rng.random() < 0.5:
                 vals = sorted({rng.choice([0, 1, 7, 8, 16, 24, 31, 32, 33, 64, 2**20 + 1, 2**40, 2**53 + 1, 2**53 - 64 + 5, 2**60 + 7, 2**63 + 3]) for _ in range(n)})
@@ -124,6 +130,20 @@ class C01(Check):
                 if pool[u].work() <= 20000:
                     ops.append(["q", "iter", u])
                 continue
+            if rng.random() < 0.04:
+                # directed: an exact repetition (k >= 64) of an arithmetic progression whose residues sit in ONE coset of the stride,
+                # queried with divisors >= 64 - the k-fold sumset keeps its size while it walks through the cosets
+                st = rng.choice([16, 32, 8, 48])
+                a0 = rng.choice([8, 0, 24, 4])
+                x = emit(["leaf", [a0 + st * i for i in range(rng.randint(3, 5))]])
+                k = rng.choice([64, 65, 66, 70, 71, 96, 100, 129]) if not huge else rng.choice([64, 70, 71, 1000, 2**20 + 6, 2**40 + 7])
+                y = emit(["rep", x, k])
+                if rng.random() < 0.4:
+                    y = emit(rng.choice([["uni", [y, rng.randrange(len(pool))]], ["cat", [y, x]], ["pad", y, 8]]))
+                for d in rng.sample([64, 96, 128, 256, 192, 160, 320], 3):
+                    if est_cost(pool[y], d) <= COST_LIMIT:
+                        ops.append(["q", rng.choice(["mod", "mod", "aligned"]), y, d])
+                continue
             if len(pool) < 2 or rng.random() < 0.12:
                 op = ["leaf", leaf()]
                 if rng.random() < 0.2 and len(op[1]) == 1:
@@ -136,16 +156,20 @@ class C01(Check):
                     c = rng.random()
                     if c < 0.25:
                         idx = [rng.randrange(len(pool)) for _ in range(rng.randint(2, 3))]
+                        if rng.random() < 0.2:
+                            idx[-1] = idx[0]  # the SAME operand object twice in one concatenation (a + a)
                         if rng.random() < 0.25:
                             idx[rng.randrange(len(idx))] = {"lit": leaf()}
                         op = [rng.choice(["cat", "radd"]) if len(idx) == 2 else "cat", idx]
                     elif c < 0.45:
                         idx = [rng.randrange(len(pool)) for _ in range(rng.randint(2, 3))]
+                        if rng.random() < 0.2:
+                            idx[-1] = idx[0]
                         if rng.random() < 0.25:
                             idx[rng.randrange(len(idx))] = {"lit": leaf()}
                         op = [rng.choice(["uni", "ror"]) if len(idx) == 2 else "uni", idx]
                     elif c < 0.65:
-                        k = rng.choice([0, 1, 2, 3, 6]) if not huge else rng.choice([0, 1, 5, 64, 255, 256, 1000, 65535, 2**32, 2**63, 2**63 - 1, rng.randint(0, 2**63)])
+                        k = rng.choice([0, 1, 2, 3, 6]) if not huge else rng.choice([0, 1, 5, 64, 70, 71, 255, 256, 1000, 65535, 2**32, 2**63, 2**63 - 1, rng.randint(0, 2**63)])
                         op = ["rep", rng.randrange(len(pool)), k]
                     elif c < 0.85:
                         k = rng.choice([0, 1, 2, 3, 6]) if not huge else rng.choice([0, 1, 5, 64, 255, 256, 1000, 65535, 2**32, 2**63, rng.randint(0, 2**63)])
@@ -164,6 +188,10 @@ class C01(Check):
                         continue
                     ops.append(op)
                     pool.append(node)
+                    if op[0] in ("cat", "uni") and isinstance(op[1], list) and len(op[1]) >= 2 and op[1][0] == op[1][-1] and isinstance(op[1][0], int):
+                        for d in rng.sample([8, 16, 32, 3, 12, 64], 2):
+                            if est_cost(node, d) <= COST_LIMIT:
+                                ops.append(["q", rng.choice(["mod", "aligned"]), len(pool) - 1, d])
                     continue
                 # query
                 i = rng.randrange(len(pool))
